@@ -96,6 +96,9 @@ class Engine:
         s.overrides = {}
         s.cur_model = None
         s._last_model = None
+        s._trait_cache = {}
+        s._callee_cache = {}
+        s._fnmod_cache = {}
         import models, models_pallas
         models.register(s)
         models_pallas.register(s)
@@ -155,6 +158,13 @@ class Engine:
         return ""
 
     def fn_module(s, fn):
+        m = s._fnmod_cache.get(fn.name)
+        if m is None:
+            m = s._fn_module(fn) or ""
+            s._fnmod_cache[fn.name] = m
+        return m or None
+
+    def _fn_module(s, fn):
         """module (file stem) a MIR function was defined in"""
         if fn.impl_span:
             f = fn.impl_span[0]
@@ -1354,6 +1364,13 @@ class Engine:
         return type(v).__name__
 
     def parse_callee(s, callee):
+        r = s._callee_cache.get(callee)
+        if r is None:
+            r = s._parse_callee(callee)
+            s._callee_cache[callee] = r
+        return r
+
+    def _parse_callee(s, callee):
         """-> ('trait', self_text, trait_name, trait_generics, method, method_generics) | ('path', segs, generics)"""
         c = callee.strip()
         if c.startswith("<"):
@@ -1500,8 +1517,25 @@ class Engine:
         # closures and function items
         if trait in ("Fn", "FnMut", "FnOnce"):
             return s.call_callable(args[0], args[1].fields if isinstance(args[1], Agg) else [args[1]])
+        ckey = (trait, tg, method, sname, self_t, s._cur_module)
+        tgt = s._trait_cache.get(ckey)
+        if tgt is None:
+            tgt = s._resolve_trait(frame, self_t, trait, tg, method, sname, callee)
+            s._trait_cache[ckey] = tgt
+        if tgt[0] == "fn":
+            return s.call_fn(tgt[1], args)
+        key, m = tgt[1], tgt[2]
+        # models registered per harness run (store models) may change between runs
+        m = s.models.get(key + "@" + sname) or s.models.get(key) or m
+        if m is None:
+            raise Unmodelled("trait call %s (self=%s)" % (callee, sname))
+        s.stats.models_used[key] = s.stats.models_used.get(key, 0) + 1
+        s._tg = tg
+        s._self_t = self_t
+        return m(s, args, callee)
+
+    def _resolve_trait(s, frame, self_t, trait, tg, method, sname, callee):
         # user impls in the dump
-        tgs = strip_generics(tg) if tg else ""
         exact, structural, blanket = [], [], []
         for t, itg, ty, bl, bounds, methods, cself, mod in s.impls:
             if t != trait or method not in methods:
@@ -1523,14 +1557,14 @@ class Engine:
                 if len(cc) == 1:
                     cands = cc
             if len(cands) == 1:
-                return s.call_fn(cands[0], args)
+                return ("fn", cands[0])
             if len(cands) > 1:
                 raise Unmodelled("ambiguous impl %s for %s::%s" % (trait, sname, method))
         if blanket and (trait, method) not in s.model_first:
             # the blanket impl applies if its bound has an impl for this type in the dump
             for f, bounds in blanket:
                 need = []
-                for clause in split_top(re.sub(r"^<|>\s*$", "", bounds.replace(" where ", ", ").strip().lstrip("<")).replace("> ", ", ", 1) if False else _bound_clauses(bounds)):
+                for clause in _bound_clauses(bounds):
                     if ":" not in clause:
                         continue
                     rhs = clause.split(":", 1)[1]
@@ -1539,21 +1573,15 @@ class Engine:
                         if b and b not in ("Sized", "Debug", "Clone", "Send", "Sync") and not b.startswith("'"):
                             need.append(b)
                 if all(any(r[0] == n and r[6] == sname for r in s.impls) or n in ("Into",) for n in need):
-                    return s.call_fn(f, args)
+                    return ("fn", f)
         # trait default method in the dump
         f = s.trait_defaults.get((trait, method))
         if f is not None and any(r[0] == trait and r[6] == sname for r in s.impls):
-            return s.call_fn(f, args)
+            return ("fn", f)
         if f is not None and not s.is_std_trait(trait):
-            return s.call_fn(f, args)
+            return ("fn", f)
         key = "%s::%s" % (trait, method)
-        m = s.models.get(key + "@" + sname) or s.models.get(key)
-        if m is None:
-            raise Unmodelled("trait call %s (self=%s)" % (callee, sname))
-        s.stats.models_used[key] = s.stats.models_used.get(key, 0) + 1
-        s._tg = tg
-        s._self_t = self_t
-        return m(s, args, callee)
+        return ("model", key, s.models.get(key + "@" + sname) or s.models.get(key))
 
     model_first = set()
 
